@@ -450,6 +450,21 @@ class Gen:
         self.rng = rng
         self.tgt = tgt
         self.st = State(tgt)
+        self.big = False       # big statements (up to the documented 1 KiB of code per line) wanted
+        self.force = None      # statement kind forced for the next statement (directed cases)
+
+    def reps(self, normal):
+        """pool of [n] repeat counts"""
+        return [None, 9, 20, 33, 64, 100] if self.big else normal
+
+    def nargs(self, normal):
+        # "The parameter count may be between 1 and 20"
+        return self.rng.choice([8, 13, 20] if self.big else normal)
+
+    def pick_kind(self, pool):
+        if self.force in pool:
+            return self.force
+        return self.rng.choice(pool)
 
     # -- helpers ------------------------------------------------------------
     def xlat(self, codes):
@@ -519,7 +534,7 @@ class Gen:
     def m16_dc(self, bad=False):
         rng = self.rng
         st = self.st
-        attr = rng.choice(['b', 'b', 'w', 'w', 'l', 'q', 'c', 's', 'd', 'x', ''])
+        attr = self.pick_kind(['b', 'b', 'w', 'w', 'l', 'q', 'c', 's', 'd', 'x', ''])
         if not attr and self.tgt.cpu != '68000':
             # MANUAL-SILENT: "The default attribute is W" (section DC) vs. "the omission of an attribute generally
             # leads to the natural operand size of a processor family": DC without attribute only on the 68000
@@ -532,7 +547,7 @@ class Gen:
             mode = rng.choice(['val', 'val', 'val', 'mix'])
             if typ == 'double' or typ == 'ext' or attr == 'q':
                 mode = 'mix'
-        nargs = rng.choice([1, 1, 2, 3, 4, 6])
+        nargs = rng.choice([1, 2, 3] if self.big else [1, 1, 2, 3, 4, 6])
         # MANUAL-SILENT: whether a reservation of words at an odd address is padded; such statements are
         # only generated where no padding question arises.
         if mode == 'res' and self.need_pad(size):
@@ -541,7 +556,7 @@ class Gen:
         if mode == 'res':
             tot = 0
             for _ in range(nargs):
-                rep = rng.choice([None, None, 1, 2, 3, 7])
+                rep = rng.choice(self.reps([None, None, 1, 2, 3, 7]))
                 args.append(('[%d]' % rep if rep else '') + '?')
                 tot += (rep or 1) * size
             it.text = '%s\t%s' % (mnem, ','.join(args))
@@ -564,7 +579,7 @@ class Gen:
         badidx = rng.randrange(nargs) if bad else -1
         alt = False
         for i in range(nargs):
-            rep = rng.choice([None, None, None, 1, 2, 3, 5])
+            rep = rng.choice(self.reps([None, None, None, 1, 2, 3, 5]))
             pre = '[%d]' % rep if rep else ''
             n = rep or 1
             if i == badidx:
@@ -615,7 +630,7 @@ class Gen:
             if it.expect == 'err':
                 it.slots = []
                 it.spans = []
-        if len(it.slots) > 900 or len(it.text) > 200:
+        if len(it.slots) > 1000 or len(it.text) > 200:
             return None
         return self.finish(it, 'M16', mnem)
 
@@ -648,11 +663,11 @@ class Gen:
         rng = self.rng
         mnem = rng.choice(['byt', 'fcb', 'byte'])
         it = Item('')
-        nargs = rng.choice([1, 1, 2, 3, 5])
+        nargs = self.nargs([1, 1, 2, 3, 5])
         badidx = rng.randrange(nargs) if bad else -1
         args = []
         for i in range(nargs):
-            rep = rng.choice([None, None, None, 1, 2, 4])
+            rep = rng.choice(self.reps([None, None, None, 1, 2, 4]))
             pre = '[%d]' % rep if rep else ''
             n = rep or 1
             s0 = len(it.slots)
@@ -684,11 +699,11 @@ class Gen:
             return None
         mnem = rng.choice(['adr', 'fdb'])
         it = Item('')
-        nargs = rng.choice([1, 1, 2, 3, 5])
+        nargs = self.nargs([1, 1, 2, 3, 5])
         badidx = rng.randrange(nargs) if bad else -1
         args = []
         for i in range(nargs):
-            rep = rng.choice([None, None, None, 1, 2, 4])
+            rep = rng.choice(self.reps([None, None, None, 1, 2, 4]))
             pre = '[%d]' % rep if rep else ''
             n = rep or 1
             s0 = len(it.slots)
@@ -714,7 +729,7 @@ class Gen:
         it = Item('')
         args = []
         for i in range(rng.choice([1, 1, 2, 3])):
-            rep = rng.choice([None, None, 1, 2, 3])
+            rep = rng.choice(self.reps([None, None, 1, 2, 3]))
             t, codes = self.string_arg(1, 8)
             s0 = len(it.slots)
             args.append(('[%d]' % rep if rep else '') + t)
@@ -739,9 +754,9 @@ class Gen:
         """one argument of a Dx statement -> (text, list of elements) ; an element is
         ('v', [bytes LSB first] or nibble, class) or ('r',) for a reserved element"""
         rng = self.rng
-        if depth < 2 and rng.random() < (0.35 if depth == 0 else 0.25):
+        if depth < 2 and rng.random() < ((0.8 if self.big else 0.35) if depth == 0 else 0.25):
             # "n DUP (list)"; the list may contain DUPs again.  MANUAL-SILENT: a count of 0.
-            n = rng.choice([1, 2, 2, 3, 4, 7])
+            n = rng.choice([17, 33, 64, 129, 200] if (self.big and depth == 0) else [1, 2, 2, 3, 4, 7])
             parts = []
             elems = []
             for _ in range(rng.choice([1, 1, 2, 3])):
@@ -856,7 +871,7 @@ class Gen:
     def intel_dx(self, bad=False, kinds=('dn', 'db', 'db', 'dw', 'dw', 'dd', 'dq', 'dt'), fam='INTEL'):
         rng = self.rng
         st = self.st
-        kind = rng.choice(kinds)
+        kind = self.pick_kind(kinds)
         if kind == 'dn' and st.bigendian:
             # MANUAL-SILENT: BIGENDIAN is documented "for the instructions DB, DW, DD, DQ, and DT"; the nibble
             # order of DN under BIGENDIAN ON is not described
@@ -921,7 +936,7 @@ class Gen:
             parts.append(t)
             elems += e
         it.text = '%s\t%s' % (mnem, ','.join(parts))
-        if len(elems) * self.ELEM_BITS[kind] // 8 > 600 or len(it.text) > 200:
+        if len(elems) * self.ELEM_BITS[kind] // 8 > 1000 or len(it.text) > 200:
             return None
         if st.gran != 1 and kind in ('dq', 'dt'):
             return None
@@ -944,7 +959,7 @@ class Gen:
     def msp_byte(self, bad=False):
         rng = self.rng
         it = Item('')
-        nargs = rng.choice([1, 1, 2, 3, 5])
+        nargs = self.nargs([1, 1, 2, 3, 5])
         badidx = rng.randrange(nargs) if bad else -1
         args = []
         for i in range(nargs):
@@ -974,7 +989,7 @@ class Gen:
         rng = self.rng
         it = Item('')
         it.pad = 0 if bad else self.need_pad(2)
-        nargs = rng.choice([1, 1, 2, 3, 5])
+        nargs = self.nargs([1, 1, 2, 3, 5])
         badidx = rng.randrange(nargs) if bad else -1
         args = []
         for i in range(nargs):
@@ -1034,9 +1049,9 @@ class Gen:
     # -- TMS320C2x: WORD LONG DATA STRING RSTRING FLOAT DOUBLE BSS RES -----------------
     def ti_stmt(self, bad=False):
         rng = self.rng
-        kind = rng.choice(['word', 'word', 'long', 'data', 'data', 'string', 'rstring', 'float', 'double'])
+        kind = self.pick_kind(['word', 'word', 'long', 'data', 'data', 'string', 'rstring', 'float', 'double'])
         it = Item('')
-        nargs = rng.choice([1, 1, 2, 3, 5])
+        nargs = self.nargs([1, 1, 2, 3, 5])
         if bad and kind == 'double':
             kind = 'word'
         badidx = rng.randrange(nargs) if bad else -1
@@ -1128,9 +1143,9 @@ class Gen:
     # -- TMS320C3x: WORD DATA BSS ----------------------------------------------------------
     def c3x_stmt(self, bad=False):
         rng = self.rng
-        kind = rng.choice(['word', 'data'])
+        kind = self.pick_kind(['word', 'data'])
         it = Item('')
-        nargs = rng.choice([1, 1, 2, 3, 5])
+        nargs = self.nargs([1, 1, 2, 3, 5])
         badidx = rng.randrange(nargs) if bad else -1
         args = []
         for i in range(nargs):
@@ -1217,7 +1232,7 @@ class Gen:
             it.spans = [(0, 2 * n, 'zero-words')]
             it.expect = 'ok'
             return self.finish(it, 'PIC', 'zero')
-        nargs = rng.choice([1, 1, 2, 3, 5])
+        nargs = self.nargs([1, 1, 2, 3, 5])
         badidx = rng.randrange(nargs) if bad else -1
         args = []
         for i in range(nargs):
@@ -1252,7 +1267,7 @@ class Gen:
         if st.seg != 'code':
             return None
         it = Item('')
-        nargs = rng.choice([1, 1, 2, 3, 5])
+        nargs = self.nargs([1, 1, 2, 3, 5])
         badidx = rng.randrange(nargs) if bad else -1
         args = []
         if st.packing:
@@ -1329,6 +1344,18 @@ class Gen:
         'DSP56': ['dsp_dc', 'dsp_dc', 'dsp_dc', 'dsp_ds'],
         'PIC': ['pic_stmt'],
         'AVR': ['avr_data', 'avr_data', 'avr_dx', 'avr_dx', 'avr_res'],
+    }
+
+    # directed (big) cases: forced kind -> builder
+    DIRECTED = {
+        'M16': dict((a, 'm16_dc') for a in ['b', 'w', 'l', 'q', 'c', 's', 'd', 'x']),
+        'M8': {'byt': 'm8_byt', 'adr': 'm8_adr', 'fcc': 'm8_fcc'},
+        'INTEL': dict((k, 'intel_dx') for k in ['dn', 'db', 'dw', 'dd', 'dq', 'dt']),
+        'AVR': {'dn': 'avr_dx', 'db': 'avr_dx', 'dw': 'avr_dx', 'dd': 'avr_dx', 'data': 'avr_data'},
+        'MSP': {'byte': 'msp_byte', 'word': 'msp_word'},
+        'TI': dict((k, 'ti_stmt') for k in ['word', 'long', 'data', 'string', 'rstring', 'float', 'double']),
+        'C3X': {'word': 'c3x_stmt', 'data': 'c3x_stmt'},
+        'PIC': {'data': 'pic_stmt'},
     }
 
     def directive(self):
@@ -1426,7 +1453,9 @@ class Gen:
             out.append(Item('org\t%d' % st.addr))
         return out
 
-    def program(self, nstmts, bad_share=0.25):
+    def program(self, nstmts, bad_share=0.25, big=None):
+        """big: None, or the statement kind forced for the first statements of a directed case: the program
+        then opens with statements near the documented limits (20 arguments, 1 KiB of code per line)"""
         rng = self.rng
         tgt = self.tgt
         st = self.st
@@ -1457,6 +1486,12 @@ class Gen:
             if st.seg != 'code' and fam == 'AVR':
                 name = 'avr_dx'
             bad = rng.random() < bad_share
+            self.big = big is not None and n < 4
+            self.force = big if self.big else None
+            if self.big:
+                bad = False
+                if big in self.DIRECTED.get(fam, {}):
+                    name = self.DIRECTED[fam][big]
             save_addr, save_left = st.addr, st.left
             it = getattr(self, name)(bad)
             if it is None:
@@ -1482,6 +1517,8 @@ class Gen:
         return items
 
     def sentinel(self):
+        self.big = False
+        self.force = None
         fam = self.tgt.fam[0]
         for _ in range(50):
             name = {'M16': 'm16_dc', 'M8': 'm8_byt', 'INTEL': 'intel_dx', 'MSP': 'msp_byte', 'TI': 'ti_stmt',
